@@ -240,6 +240,7 @@ func runCase(c Case) (res pbt.Result) {
 	}
 	if c.SQL {
 		runSQL(c, &res)
+		runWhen(c, &res)
 		res.Class("sql")
 	}
 	if len(c.Parts) > 1 {
@@ -339,6 +340,111 @@ func runSQL(c Case, res *pbt.Result) {
 	}
 }
 
+// runWhen: the same pair as OVER (WHEN p) of an analytic call and as GLOBAL WINDOW TRIGGER WHEN over last_value(col).
+func runWhen(c Case, res *pbt.Result) {
+	ft, gt := sqlPred(fastText(c)), sqlPred(generalText(c))
+	open := func(q string) *streamsql.Streamsql {
+		s := streamsql.New()
+		if err := s.Execute(q); err != nil {
+			return nil
+		}
+		return s
+	}
+	oa := open("SELECT id, acc_count(id) OVER (WHEN " + ft + ") AS n FROM stream")
+	ob := open("SELECT id, acc_count(id) OVER (WHEN " + gt + ") AS n FROM stream")
+	if (oa == nil) != (ob == nil) {
+		res.Add(pbt.D("sql-compile-differs", "OVER (WHEN %q) accepted=%v, OVER (WHEN %q) accepted=%v", ft, oa != nil, gt, ob != nil))
+	}
+	if oa != nil && ob != nil {
+		for i, r := range c.Rows {
+			ra := r.Go()
+			ra["id"] = i
+			rb := run.DeepCopy(ra).(map[string]any)
+			xa, ea := oa.EmitSync(ra)
+			xb, eb := ob.EmitSync(rb)
+			res.Count("disagreements_checked", 1)
+			if fmt.Sprint(xa) != fmt.Sprint(xb) || (ea != nil) != (eb != nil) {
+				res.Add(pbt.D("over-when-differs", "OVER (WHEN %q) on %v -> (%v,%v); OVER (WHEN %q) -> (%v,%v)", ft, r, xa, ea, gt, xb, eb))
+				break
+			}
+		}
+	}
+	if oa != nil {
+		oa.Stop()
+	}
+	if ob != nil {
+		ob.Stop()
+	}
+	// TRIGGER WHEN: every column reference becomes last_value(col), which is the current row's value; a sentinel part
+	// (first, so that OR short-circuits on it) fires the remainder. Only for || chains and single predicates.
+	if len(c.Parts) > 1 && c.Join == "&&" {
+		return
+	}
+	trig := func(general bool) string {
+		var ps []string
+		for _, p := range c.Parts {
+			t := sp(p.Sp[0]) + "last_value(" + p.Col + ")" + sp(p.Sp[1]) + p.Op + sp(p.Sp[2]) + p.Lit
+			if general {
+				t = "(" + t + ")"
+			}
+			ps = append(ps, t)
+		}
+		return strings.Join(ps, " OR ")
+	}
+	sel := "SELECT collect(id) AS ids FROM stream GROUP BY GLOBAL WINDOW TRIGGER WHEN "
+	qa, qb := sel+"last_value(id) == -1 OR "+trig(false), sel+"(last_value(id) == -1) OR "+trig(true)
+	ta, e1 := run.Open(qa)
+	tb, e2 := run.Open(qb)
+	if e1 != nil || e2 != nil {
+		if (e1 == nil) != (e2 == nil) {
+			res.Add(pbt.D("sql-compile-differs", "%q: %v; %q: %v", qa, e1, qb, e2))
+		}
+		if ta != nil {
+			ta.Stop()
+		}
+		if tb != nil {
+			tb.Stop()
+		}
+		return
+	}
+	defer ta.Stop()
+	defer tb.Stop()
+	for i, r := range c.Rows {
+		ra := r.Go()
+		ra["id"] = i
+		ta.Emit(ra)
+		tb.Emit(run.DeepCopy(ra).(map[string]any))
+	}
+	ta.Emit(map[string]any{"id": -1})
+	tb.Emit(map[string]any{"id": -1})
+	done := func(ds []run.Delivery) bool {
+		for _, d := range ds {
+			for _, r := range d.Rows {
+				l, _ := r["ids"].([]any)
+				for _, e := range l {
+					if f, _ := gen.ToFloat(e); f == -1 {
+						return true
+					}
+				}
+			}
+		}
+		return false
+	}
+	oka := ta.WaitFor(pbt.Wait(3*time.Second), done)
+	okb := tb.WaitFor(pbt.Wait(3*time.Second), done)
+	ids := func(in *run.Inst) string {
+		var s []string
+		for _, r := range in.Rows() {
+			s = append(s, fmt.Sprint(r["ids"]))
+		}
+		return strings.Join(s, " ")
+	}
+	res.Count("disagreements_checked", int64(len(c.Rows)))
+	if !oka || !okb || ids(ta) != ids(tb) {
+		res.Add(pbt.D("trigger-when-differs", "%q fires with ids %s (sentinel seen %v); %q fires with %s (sentinel seen %v)", qa, ids(ta), oka, qb, ids(tb), okb))
+	}
+}
+
 func features(c Case) []string {
 	var f []string
 	for _, p := range c.Parts {
@@ -364,8 +470,8 @@ func features(c Case) []string {
 
 var spec = pbt.Spec[Case]{
 	ID:   "C12",
-	Rule: "generated: predicates of the shortcut shapes - `col OP lit` for every operator with integer/negative/fractional/quoted literals and random spacing, and flat &&/|| chains of 2-4 - each paired with its parenthesised equivalent that both shortcut regexes reject; rows with every Go numeric width, NaN, +-Inf, values around 2^53 and around the literal, numeric-looking strings, bools, NULL, missing, slices, maps. oracle: condition.NewExprCondition(p).Evaluate(row) == NewExprCondition(paren(p)).Evaluate(row), no panic; one case in ten also through SQL WHERE (EmitSync) and HAVING. counters: programs, disagreements_checked. non-trivial = some compared value is NULL/missing, of another kind than the literal, NaN/Inf or beyond 2^53; distinct by case hash",
-	Assumptions: []string{"parentheses do not change the meaning of a predicate in the general (expr-lang) evaluator", "OVER-WHEN and TRIGGER-WHEN compile predicates with the same condition.NewExprCondition"},
+	Rule: "generated: predicates of the shortcut shapes - `col OP lit` for every operator with integer/negative/fractional/quoted literals and random spacing, and flat &&/|| chains of 2-4 - each paired with its parenthesised equivalent that both shortcut regexes reject; rows with every Go numeric width, NaN, +-Inf, values around 2^53 and around the literal, numeric-looking strings, bools, NULL, missing, slices, maps. oracle: condition.NewExprCondition(p).Evaluate(row) == NewExprCondition(paren(p)).Evaluate(row), no panic; one case in ten also through SQL WHERE (EmitSync), HAVING, OVER (WHEN p) of acc_count and GLOBAL WINDOW TRIGGER WHEN over last_value(col) (|| chains and single predicates), each as the same twin. counters: programs, disagreements_checked. non-trivial = some compared value is NULL/missing, of another kind than the literal, NaN/Inf or beyond 2^53; distinct by case hash",
+	Assumptions: []string{"parentheses do not change the meaning of a predicate in the general (expr-lang) evaluator", "in TRIGGER WHEN last_value(col) of a group stands for the current row's value of col"},
 	Gen:      genCase,
 	Run:      runCase,
 	Features: features,
